@@ -278,6 +278,21 @@ def _run_job(args):
                 "crashed": True}
 
 
+def interleave(jobs):
+    """Jobs past the wall-clock budget are skipped (and reported).  So that a loaded machine does not silently drop a whole KIND of job, the classes of
+    jobs (job["kind"], else the first component of the id) take turns; the order inside a class is the harness's."""
+    classes = {}
+    for j in jobs:
+        classes.setdefault(str(j.get("kind") or j.get("family") or str(j.get("id", "")).split("-")[0]), []).append(j)
+    out, queues = [], list(classes.values())
+    while queues:
+        for q in list(queues):
+            out.append(q.pop(0))
+            if not q:
+                queues.remove(q)
+    return out
+
+
 def load_known(prop):
     p = os.path.join(VERIF, "known_findings.json")
     if not os.path.exists(p):
@@ -329,6 +344,8 @@ def main(harness_name, argv=None):
     jobs = H.jobs(args.tier, seed)
     if args.only:
         jobs = [j for j in jobs if re.search(args.only, j.get("id", ""))]
+    if not getattr(H, "KEEP_JOB_ORDER", False):
+        jobs = interleave(jobs)
     results = []
     if args.procs > 1 and len(jobs) > 1:
         ctx = mp.get_context("fork")
